@@ -93,9 +93,14 @@ class C12(Prop):
                 m = rng.randint(3, 6); P = [[((j - s) % m) + 1 for j in range(m)] for s in range(m)] * rng.randint(1, 3)
             rng.shuffle(P)
             dt = rng.choice(["int64", "int32", "float"])
-            yield dict(entry="Copeland." + ["score", "scf", "swf"][i % 3], family=kind, rule="Copeland", method=["score", "scf", "swf"][i % 3],
-                       P=P, zi=bool(i % 2), tb=V.TBS[i % 3], k=1, dtype=dt)
-            yield dict(entry="STV.scf", family=kind, rule="STV", method="scf", P=P, zi=bool(i % 2), tb=["first", "random"][i % 2], k=1, seed=i, dtype=dt)
+            c1 = dict(entry="Copeland." + ["score", "scf", "swf"][i % 3], family=kind, rule="Copeland", method=["score", "scf", "swf"][i % 3],
+                      P=P, zi=bool(i % 2), tb=V.TBS[i % 3], k=1, dtype=dt)
+            c2 = dict(entry="STV.scf", family=kind, rule="STV", method="scf", P=P, zi=bool(i % 2), tb=["first", "random"][i % 2], k=1, seed=i, dtype=dt)
+            if i % 5 == 0:       # history: same rule object, same profile object, ballots revised in place between two calls
+                other = V.rand_profile(rng, len(P), m)
+                c1["inplace_first"] = other; c2["inplace_first"] = other; c1["family"] = c2["family"] = kind + "_history"
+            yield c1
+            yield c2
 
     def shrink(self, case):
         if len(case["P"]) <= 1: return
